@@ -389,7 +389,7 @@ var TokenKinds = []string{"unbalanced", "adjacent-binops"}
 // KindNames lists every injector (deterministic order).
 var KindNames = []string{"break-outside", "continue-outside", "continue-noniter-label", "return-top", "unknown-label",
 	"duplicate-label", "bad-target", "try-alone", "bad-regex", "bad-string", "bad-comment", "reserved-ident", "grammar",
-	"known-accepted", "unbalanced", "adjacent-binops"}
+	"known-accepted", "unbalanced", "adjacent-binops", "bad-regex-nested"}
 
 const marker = "\x00INJ"
 
@@ -625,11 +625,35 @@ func Inject(prog *minijs.Node, inj Injection) (res Injected, ok bool) {
 		res.CanonicalOnly = true
 		return res, true
 	}
-	vars := Kinds[inj.Kind]
-	if len(vars) == 0 {
-		return res, false
+	var v variant
+	if inj.Kind == "bad-regex-nested" {
+		// 7.8.5 with 15.10.1: an invalid pattern at nesting depth 0-3 inside groups, alternations and
+		// quantified groups (lib/m04/repattern.go); invalid by the own ES5 pattern recogniser
+		body, depth, defect := NestedBadRegex(inj.Var)
+		if ES5Pattern(body, false) == nil {
+			return res, false
+		}
+		flags := []string{"", "g", "i", "m", "gi"}[mod(inj.Var+1, 5)]
+		lit := "/" + body + "/" + flags
+		v.text = []string{lit + " ;", "x = " + lit + " ;", "f ( " + lit + " ) ;", "if ( " + lit + " . test ( a ) ) hit ( 4 ) ;", "var r = [ 1 , " + lit + " ] ;"}[mod(inj.Var+2, 5)]
+		v.canon = true
+		if strings.HasPrefix(defect, "^") || strings.HasPrefix(defect, "$") || strings.HasPrefix(defect, "\\b") || strings.HasPrefix(defect, "\\B") || strings.Contains(defect, "|^{") {
+			v.known = "C04-REGEX-QUANTIFIED-ASSERTION"
+		}
+		res.Depth = depth
+		defer func() {
+			if ok {
+				res.What = fmt.Sprintf("bad-regex-nested: defect %q at group depth %d in %s; %s", defect, depth, lit, res.What)
+				res.Depth = depth
+			}
+		}()
+	} else {
+		vars := Kinds[inj.Kind]
+		if len(vars) == 0 {
+			return res, false
+		}
+		v = vars[mod(inj.Var, len(vars))]
 	}
-	v := vars[mod(inj.Var, len(vars))]
 	tree := cloneNode(prog)
 	var sites []site
 	collectSites(tree, sctx{}, &sites)
